@@ -1,5 +1,5 @@
-// C06 (index level): broadcast_shape for 2..4 run-time shapes of any container kind (incl. None = scalar shape),
-// nested calls on the maybe-valued results, shape_broadcast_to / origin_axes / index::broadcast_to.
+// C06 (index level, pairs): broadcast_shape(a,b) for run-time shapes of any container kind (incl. None = scalar
+// shape), plus nested calls that feed the maybe-valued result back as an operand.
 #include "c06_common.hpp"
 #include "nmtools/array/index/broadcast_shape.hpp"
 #include "nmtools/array/index/broadcast_to.hpp"
@@ -37,118 +37,6 @@ VH_OP(bs2)
             const auto j_ = ix::broadcast_shape(p, sb);
             out.tok("J");
             emit_shape_result(out, j_);
-        });
-        if (!ok2) out.tok("ERR kind-b");
-    });
-    if (!ok) out.tok("ERR kind-a");
-}
-
-// bs3 <ka> <a> <kb> <b> <kc> <c>
-//   -> V bs(a,b,c)  L bs(bs(a,b),c)  R bs(a,bs(b,c))
-VH_OP(bs3)
-{
-    auto ka = (int)in.i();
-    auto a = in.vec();
-    auto kb = (int)in.i();
-    auto b = in.vec();
-    auto kc = (int)in.i();
-    auto c = in.vec();
-    bool ok = c06::with_shape<2, true, false>(ka, a, [&](const auto& sa) {
-        bool ok2 = c06::with_shape<2, true, false>(kb, b, [&](const auto& sb) {
-            bool ok3 = c06::with_shape<2, true, false>(kc, c, [&](const auto& sc) {
-                const auto v = ix::broadcast_shape(sa, sb, sc);
-                out.tok("V");
-                emit_shape_result(out, v);
-                const auto l = ix::broadcast_shape(ix::broadcast_shape(sa, sb), sc);
-                out.tok("L");
-                emit_shape_result(out, l);
-                const auto r = ix::broadcast_shape(sa, ix::broadcast_shape(sb, sc));
-                out.tok("R");
-                emit_shape_result(out, r);
-            });
-            if (!ok3) out.tok("ERR kind-c");
-        });
-        if (!ok2) out.tok("ERR kind-b");
-    });
-    if (!ok) out.tok("ERR kind-a");
-}
-
-// bs4 <ka> <a> <kb> <b> <kc> <c> <kd> <d>   (kinds: list / static_vector / None)
-//   -> V bs(a,b,c,d)  G bs(bs(a,b),bs(c,d))
-VH_OP(bs4)
-{
-    auto ka = (int)in.i();
-    auto a = in.vec();
-    auto kb = (int)in.i();
-    auto b = in.vec();
-    auto kc = (int)in.i();
-    auto c = in.vec();
-    auto kd = (int)in.i();
-    auto d = in.vec();
-    bool ok = c06::with_shape<0, true, false>(ka, a, [&](const auto& sa) {
-        bool ok2 = c06::with_shape<0, true, false>(kb, b, [&](const auto& sb) {
-            bool ok3 = c06::with_shape<0, true, false>(kc, c, [&](const auto& sc) {
-                bool ok4 = c06::with_shape<0, true, false>(kd, d, [&](const auto& sd) {
-                    const auto v = ix::broadcast_shape(sa, sb, sc, sd);
-                    out.tok("V");
-                    emit_shape_result(out, v);
-                    const auto g = ix::broadcast_shape(ix::broadcast_shape(sa, sb), ix::broadcast_shape(sc, sd));
-                    out.tok("G");
-                    emit_shape_result(out, g);
-                });
-                if (!ok4) out.tok("ERR kind-d");
-            });
-            if (!ok3) out.tok("ERR kind-c");
-        });
-        if (!ok2) out.tok("ERR kind-b");
-    });
-    if (!ok) out.tok("ERR kind-a");
-}
-
-// sbt <ka> <src> <kb> <dst>
-//   -> T <is_maybe> <has> [ SH shape FA free_axes OA origin_axes IDX n (src multi-index for every dst index in C order) ]
-VH_OP(sbt)
-{
-    auto ka = (int)in.i();
-    auto a = in.vec();
-    auto kb = (int)in.i();
-    auto b = in.vec();
-    bool ok = c06::with_shape<3, false, false>(ka, a, [&](const auto& sa) {
-        bool ok2 = c06::with_shape<3, false, false>(kb, b, [&](const auto& sb) {
-            const auto r = ix::shape_broadcast_to(sa, sb);
-            using r_t = meta::remove_cvref_t<decltype(r)>;
-            out.tok("T");
-            out.i(meta::is_maybe_v<r_t> ? 1 : 0);
-            bool has = nm::has_value(r);
-            out.i(has ? 1 : 0);
-            if (!has) return;
-            const auto& t = nm::unwrap(r);
-            const auto shape = nm::get<0>(t);
-            const auto free_axes = nm::get<1>(t);
-            out.tok("SH");
-            out.vec(vh::to_vec(shape));
-            out.tok("FA");
-            {
-                auto n = (size_t)nm::len(free_axes);
-                out.i((long long)n);
-                for (size_t i = 0; i < n; i++) out.i(nm::at(free_axes, i) ? 1 : 0);
-            }
-            const auto so = ix::origin_axes(r);
-            const auto origin = nm::get<1>(nm::unwrap(so));
-            out.tok("OA");
-            out.vec(vh::to_vec(origin));
-            auto dv = vh::to_vec(shape);
-            auto n = vh::prod(dv);
-            out.tok("IDX");
-            if (n > 4096 || dv.size() == 0 || a.size() == 0) {
-                out.i(0);
-                return;
-            }
-            out.i(n);
-            for (vh::Odo o(dv); !o.end; o.next()) {
-                const auto src_idx = ix::broadcast_to(o.idx, sa, sb, origin);
-                out.vec(vh::to_vec(src_idx));
-            }
         });
         if (!ok2) out.tok("ERR kind-b");
     });
